@@ -182,7 +182,7 @@ func c10Parents(c *Ctx) *RuleResult {
 			// mentions the child's own subdirectories (len(..) > 0, != nil, ...)
 			mentions := false
 			ast.Inspect(g.Cond, func(m ast.Node) bool {
-				if sel, ok := m.(*ast.SelectorExpr); ok && sel.Sel.Name == "subdirectories" {
+				if sel, ok := m.(*ast.SelectorExpr); ok && sel.Sel.Name == p.LookupField(builderPkg, "outputNode", "subdirectories").Name() {
 					mentions = true
 				}
 				return true
